@@ -105,3 +105,15 @@ claim('C13',
       'numpy.linalg.solve is an exact-rational contract stub; scipy\'s stored polynomial coefficients are floats, hence 1e-9 (relative to '
       'sum |y|) tolerances for Legendre/Chebyshev beyond order 2, exact equality for the monomial basis; abscissae inside the solve are '
       'concrete; FITS-record constructor of TraceSet not covered.', 'DESIGN.md 4/C13')
+claim('C19',
+      'PARTIAL. airtovac / vactoair are executed with a symbolic real wavelength: unchanged below 2000 A, vacuum > air above, and the two '
+      'round trips stay within 1e-6 A for EVERY wavelength in [2000 A, 30 micron] (a nonlinear real query decided by z3/nlsat; dropping '
+      'one fixed-point iteration is refuted with a concrete wavelength); array calls with any mixture of elements below/above 2000 A agree '
+      'with the scalar form and leave the input unchanged. sdssflux2ab: flux, inverse-variance and magnitude forms use one constant per band '
+      'consistently for every 5-band value. filter_thru on concrete wavelength solutions with a symbolic flux image: every output is shown '
+      'linear in the flux, equal to c for a constant spectrum (0 for a band without overlap), inside [min, max] of the unmasked flux, '
+      'independent of masked pixels and of other traces.',
+      'Wavelengths are exact reals and non-binary float literals denote their decimal value (1e-6 A leaves five orders of magnitude for '
+      'rounding - an argument, not a solver result); array elements restricted to >= 1400 A (below that numpy evaluates and discards an '
+      'inf at the poles of the Ciddor factor); filter_thru/sdssflux2ab run in mixed mode (concrete sub-computations in IEEE double, 1e-9 / '
+      '1e-12 tolerances). astropy Quantity input is NOT covered (units machinery cannot carry symbolic values).', 'DESIGN.md 4/C19')
